@@ -89,6 +89,16 @@ PROPS = {
         "level_text": "Theorems for all specs and oracle verdicts: an accepted JobConfig loads in the scheduler under its own key and its option defaults render (so NewJobFromJobConfig cannot fail and one accepted object cannot abort cronschedule.New); acceptance decomposes into name length, template, concurrency, schedule and option rules; an accepted Job update changes none of the ten immutable fields, freezes the start policy once started and the kill timestamp once passed, and conversely an update changing none of them is accepted. The decision structure of Validator and of the loader is tied to the code by the validate stream; the end-to-end clause is judged by the monitor on the real consumers.",
         "level_note": "Trusted: Coq kernel + vm_compute; the oracles above.",
     },
+    "C16": {
+        "props_file": "Props/C16.v",
+        "theorems": ["c16_job_create_idempotent", "c16_job_update_idempotent", "c16_jobconfig_create_idempotent", "c16_finalizer", "c16_job_defaults", "c16_defaulted_template_stays_valid", "c16_config_name", "c16_config_name_labels", "c16_substitution_precedence", "c16_last_updated_create", "c16_last_updated_update", "c16_no_schedule_no_stamp"],
+        "families": [{"name": "mutate", "n_quick": 1200, "n_thorough": 30000}],
+        "rule": "mutate: AdmissionRequests through the real jobmutatingwebhook / jobconfigmutatingwebhook Handle. Jobs (CREATE 80% / UPDATE): raw JSON as a client sends it (status and null creationTimestamp present or absent), every optional field present or absent (finalizers incl. the furiko one in any position, labels/annotations incl. forged uid label and schedule-time annotation, type, ttl, startPolicy nil / empty / policy only / startAfter only, template, creationTimestamp), configName of an existing / missing JobConfig, explicit owner references with right / stale uid and with / without label, optionValues (JSON of typed and wrong-typed values, unknown option names, garbage), explicit substitutions; 1-2 JobConfigs in the lister with options, template labels/annotations (also forged ones), every concurrency policy; dynamic config defaults set or default. JobConfigs (CREATE / UPDATE): bool options without config or format, templates, 5 schedule variants x 4 lastUpdated values (nil, past, now, future) for old and new. The returned patch is applied to the submitted raw object with evanphx/json-patch and decoded; observed = projection of the patched object. non-trivial = a non-empty patch; distinct by term",
+        "trusted": ["patch faithfulness (patch applied to the raw submission = the mutator's typed result) and resubmission (second patch empty or a no-op) are decided by the stream's monitor with the API server's JSON-patch library, not by a theorem: the JSON diff of gomodules.xyz/jsonpatch is not modelled", "the option-spec hash annotation is compared by presence only (hashstructure oracle)", "jsonyaml decoding of optionValues is exercised; the model receives the decoded values and a 'does not decode' bit"],
+        "assumptions": ["partial: 'the JSON patch applied to the submitted object yields exactly the defaulted object' is checked on every generated request (signatures C16/patch-unfaithful, C16/patch-does-not-apply, C16/not-idempotent), not proved", "c16_defaulted_template_stays_valid assumes the Pod validation verdict for restartPolicy Never is no worse than for the empty one (oracle monotonicity)"],
+        "level_text": "Theorems over all Jobs/JobConfigs of the model: resubmitting the defaulted object changes nothing (Job create through configName expansion, owner lookup, option evaluation and substitution merge; Job update; JobConfig create), the finalizer and every listed default are present and submitter values kept, configName yields the JobConfig's template, owner reference, UID label (overriding forged ones), its concurrency policy unless one was given, configName cleared, submitter labels win over template labels, substitutions follow explicit > option > jobconfig context, lastUpdated is stamped exactly on schedule creation/change unless the submitted value lies in the future. The model is tied to the real webhooks by the mutate stream through the patch actually returned.",
+        "level_note": "Partial on patch faithfulness (differential, with the API server's patch library). Trusted: Coq kernel + vm_compute.",
+    },
     "C05": {
         "props_file": "Props/C05.v",
         "theorems": ["c05_pass_bound", "c05_no_double_increment", "c05_release_on_finish", "c05_release_on_delete", "c05_store_steps", "c05_rollback", "c05_recover"],
